@@ -105,6 +105,16 @@ def safe(obj: Any) -> str:
         return f"<{type(obj).__name__} object>"
 
 
+class BlockEnded(Exception):
+    pass
+
+
+def _flat(e: BaseException) -> list[BaseException]:
+    if isinstance(e, BaseExceptionGroup):
+        return [y for x in e.exceptions for y in _flat(x)]
+    return [e]
+
+
 class FactoryFailed(Exception):
     pass
 
@@ -158,6 +168,7 @@ class Actor:
         # the actor's command loop runs inside the start() of a component started in this context, so that
         # current_context() is a ComponentContext and the module-level shortcuts go through its delegating wrappers
         self.in_component = in_component
+        self.leave_how = "clean"
         self.send, self.recv = create_memory_object_stream[Any](1)
         self.entered = anyio.Event()
         self.left = anyio.Event()
@@ -291,27 +302,37 @@ class Engine:
             await self.actor_loop(a)
 
         try:
-            async with a.ctx:
-                if a.in_component:
-                    class ActorComponent(Component):
-                        async def start(self_inner) -> None:  # noqa: N805
-                            await loop_body()
-
-                    if a.cid % 2:
-                        # ... a component tree started from inside the start() of a component of another tree (an application
-                        # embedding a plug-in's tree): the actor's calls are made two component contexts deep
-                        class OuterComponent(Component):
+            with anyio.CancelScope() as leave_scope:
+                async with a.ctx:
+                    if a.in_component:
+                        class ActorComponent(Component):
                             async def start(self_inner) -> None:  # noqa: N805
-                                await start_component(ActorComponent, timeout=None)
+                                await loop_body()
 
-                        self.inc("contexts_driven_from_a_component_tree_started_inside_a_component")
-                        await start_component(OuterComponent, timeout=None)
+                        if a.cid % 2:
+                            # ... a component tree started from inside the start() of a component of another tree (an application
+                            # embedding a plug-in's tree): the actor's calls are made two component contexts deep
+                            class OuterComponent(Component):
+                                async def start(self_inner) -> None:  # noqa: N805
+                                    await start_component(ActorComponent, timeout=None)
+
+                            self.inc("contexts_driven_from_a_component_tree_started_inside_a_component")
+                            await start_component(OuterComponent, timeout=None)
+                        else:
+                            await start_component(ActorComponent, timeout=None)
                     else:
-                        await start_component(ActorComponent, timeout=None)
-                else:
-                    await loop_body()
+                        await loop_body()
+                    # the block may also end with an exception of its own, or by a cancellation: the context is left all the same
+                    if a.leave_how == "raise":
+                        raise BlockEnded("the block ended with an exception")
+                    if a.leave_how == "cancel":
+                        leave_scope.cancel()
+                        await checkpoint()
+        except BlockEnded:
+            pass
         except BaseException as e:
-            a.exit_exc = e
+            if not (a.leave_how == "raise" and isinstance(e, BaseExceptionGroup) and all(isinstance(x, BlockEnded) for x in _flat(e))):
+                a.exit_exc = e
         finally:
             a.entered.set()
             a.left.set()
@@ -683,6 +704,9 @@ class Engine:
 
         self.tg.start_soon(teardown_listener)
         await subscribed.wait()
+        if not a.in_component:
+            a.leave_how = cmd.get("how", "clean")
+            self.inc(f"contexts_left_by_{a.leave_how}")
         await a.send.send((None, None))
         await a.left.wait()
         for _ in range(4):
@@ -1347,7 +1371,7 @@ class Engine:
         if op == "enter":
             return {"op": "enter", "cid": rng.choice(constructed), "late": True, "in_component": rng.random() < 0.3}
         if op == "leave":
-            return {"op": "leave", "cid": rng.choice(leaves)}
+            return {"op": "leave", "cid": rng.choice(leaves), "how": rng.choice(["clean", "clean", "raise", "cancel"])}
         cid = rng.choice(open_)
         mc = m.ctxs[cid]
         name = rng.choice(NAMES) if rng.random() > p["p_bad_name"] else rng.choice(BAD_NAMES)
